@@ -1120,6 +1120,11 @@ def control(ctx, bench, prog, policy, desc):
             next_sample = now + 1.0
             stack_samples.add(tuple(busy_stack(prog)[1][-3:]))
         quiet = now - last_progress
+        if quiet >= 3.0 and held and not waiting:
+            # the client is not reading at all: deliver everything that is still held back, so that "every reply was
+            # deliverable" holds before any stuck verdict
+            w.release_replies(held)
+            held = 0
         if quiet >= stuck_after and not held and not prog.done and bench.server_idle() and len(stack_samples) == 1 \
                 and not (waiting and bench.client_idle()):
             # DESIGN 2.4 rule 2: link drained, server idle, no byte consumed, same stack for >= 12/20 s, and the
